@@ -28,7 +28,7 @@ import (
 var docFields = map[string]defMap{
 	"t1": {"a": {Kind: "attr", K: "string"}, "n": {Kind: "attr", K: "int", Null: true},
 		"o": {Kind: "rel", To1: true, TT: "t2"}, "m": {Kind: "rel", To1: false, TT: "t2"},
-		"o2": {Kind: "rel", To1: true, TT: "t2"}, "m2": {Kind: "rel", To1: false, TT: "t2"}},
+		"o2": {Kind: "rel", To1: true, TT: "t2"}, "m2": {Kind: "rel", To1: false, TT: "t1"}}, // (m2 leads to t1 itself: the same id under m and m2 names two different resources)
 	"t2": {"b": {Kind: "attr", K: "string"}, "p": {Kind: "rel", To1: true, TT: "t1"},
 		"o": {Kind: "rel", To1: true, TT: "t1"}, // the same name as a relationship of t1
 		// eight more attributes: a selection for t2 can name more than eight fields
